@@ -8,11 +8,12 @@ table is the generated `HydroVerif.Generated.FlowDir.codes`:
   codes                                              -> [9 ints]
   down nrows ncols [fd] [cells]                      -> ok:[cells] | err:badCell
   up nrows ncols [fd] [cells]                        -> ok:[9 ints;9 ints;...] | err:badCell
-  area nrows ncols [fd] outlet [inlets] nval         -> ok:[cells in storage order] | err:<kind>
+  area nrows ncols [fd] outlet [inlets] nval         -> ok:[cells in storage order] | err:<kind>, then ` cyc` / ` acyc`
+                                                        (cycleThroughOutlet: the property leaves error-or-bounded open)
   fillmask nrows ncols [area]                        -> none | i0 j0 nr nc [0/1,...;...]
   filled nrows ncols [area] [0/1,...;...]            -> [cells]   (2nd list = the mask returned by binary_fill_holes)
-  river nrows ncols [fd] xll yll csz start nval      -> ok:[cell,dist,dx,dy,x,y;...] | err:badCell
-  fpath nrows ncols [fd] outlet [cells]              -> [end,length,nsteps,ndiag;...]   (nval = number of cells)
+  river nrows ncols [fd] xll yll csz start nval      -> ok:[cell,dist,dx,dy,x,y;...] cyc|acyc (chainCyclic) | err:badCell
+  fpath nrows ncols [fd] outlet [cells]              -> [end,length,nsteps,ndiag,capped;...]   (nval = number of cells)
   fpath_pinned ...                                   -> same with the step classification of the pinned kernel
   hist nrows ncols [fd] op;op;...                    -> reply|reply|...   one object, calls in order:
        D:outlet:[inlets]:nval  (ok:[area] | err:kind)     F  (ok:[start,end,length;...] | err:noArea)
@@ -45,12 +46,16 @@ def fpathReply (g : FlowGrid) (diag : Int → Int → Bool) (outlet : Int) (cell
   fmtRows (cells.map fun c =>
     let r := flowPathWith codes g outlet diag nval c
     let len : Float := pathLength r.2
-    [toString r.1, hexOfFloat len, toString r.2.length, toString (r.2.filter id).length])
+    [toString r.1, hexOfFloat len, toString r.2.length, toString (r.2.filter id).length,
+     if flowPathCapped codes g outlet nval c then "1" else "0"])
 
-def tableReply (rows : List (Int × Int × List Bool)) : String :=
+def tableReply (g : FlowGrid) (outlet : Int) (rows : List (Int × Int × List Bool)) : String :=
   fmtRows (rows.map fun r =>
     let len : Float := pathLength r.2.2
-    [toString r.1, toString r.2.1, hexOfFloat len])
+    [toString r.1, toString r.2.1, hexOfFloat len,
+     if flowPathCapped codes g outlet rows.length r.1 then "1" else "0"])
+
+def cycTag (b : Bool) : String := if b then " cyc" else " acyc"
 
 /-- one call of a history; queries (`U`, `W`, `R`) are evaluated on the grid the object holds now -/
 def histOne (s : CatchState) (tok : String) : CatchState × String :=
@@ -58,14 +63,15 @@ def histOne (s : CatchState) (tok : String) : CatchState × String :=
   | ["D", o, inl, nval] =>
     match o.toInt?, parseIntList? inl, nval.toInt? with
     | some o, some inl, some nval =>
+      let tag := cycTag (cycleThroughOutlet codes s.grid o inl)
       match histStep codes s (.delineate o inl nval) with
-      | (s', .area (.ok a)) => (s', "ok:" ++ fmtIntList a)
-      | (s', .area (.error e)) => (s', "err:" ++ errName e)
+      | (s', .area (.ok a)) => (s', "ok:" ++ fmtIntList a ++ tag)
+      | (s', .area (.error e)) => (s', "err:" ++ errName e ++ tag)
       | (s', _) => (s', "bad-op")
     | _, _, _ => (s, "bad-op")
   | ["F"] =>
     match histStep codes s .flowpaths with
-    | (s', .table (.ok rows)) => (s', "ok:" ++ tableReply rows)
+    | (s', .table (.ok rows)) => (s', "ok:" ++ tableReply s.grid (s.outlet.getD (-1)) rows)
     | (s', .table (.error e)) => (s', "err:" ++ errName e)
     | (s', _) => (s', "bad-op")
   | ["S", c, v] =>
@@ -95,7 +101,7 @@ def histOne (s : CatchState) (tok : String) : CatchState × String :=
     | some start, some nval =>
       match (delineateRiver codes s.grid start nval : Except Err (List (RiverRow Float))) with
       | .ok rows => (s, "ok:" ++ fmtRows (rows.map fun r =>
-          [toString r.cell, hexOfFloat r.dist, toString r.dx, toString r.dy]))
+          [toString r.cell, hexOfFloat r.dist, toString r.dx, toString r.dy]) ++ cycTag (chainCyclic codes s.grid start))
       | .error e => (s, "err:" ++ errName e)
     | _, _ => (s, "bad-op")
   | _ => (s, "bad-op")
@@ -126,9 +132,10 @@ def handle (toks : List String) : String :=
   | ["area", nr, nc, fd, outlet, inlets, nval] =>
     match nr.toInt?, nc.toInt?, parseIntList? fd, outlet.toInt?, parseIntList? inlets, nval.toInt? with
     | some nr, some nc, some fd, some o, some inl, some nval =>
+      let tag := cycTag (cycleThroughOutlet codes (mkGrid nr nc fd) o inl)
       match wrapperArea codes (mkGrid nr nc fd) o inl nval with
-      | .ok l => "ok:" ++ fmtIntList l
-      | .error e => "err:" ++ errName e
+      | .ok l => "ok:" ++ fmtIntList l ++ tag
+      | .error e => "err:" ++ errName e ++ tag
     | _, _, _, _, _, _ => "bad-op"
   | ["fillmask", nr, nc, area] =>
     match nr.toInt?, nc.toInt?, parseIntList? area with
@@ -159,6 +166,7 @@ def handle (toks : List String) : String :=
       | .ok rows => "ok:" ++ fmtRows (rows.map fun r =>
           let xy := HydroVerif.C07.getcoord geom r.cell
           [toString r.cell, hexOfFloat r.dist, toString r.dx, toString r.dy, hexOfFloat xy.1, hexOfFloat xy.2])
+          ++ cycTag (chainCyclic codes g start)
       | .error e => "err:" ++ errName e
     | _, _, _, _, _, _, _, _ => "bad-op"
   | ["hist", nr, nc, fd, ops] =>
